@@ -18,6 +18,8 @@ def select(dst, *srcs): return {"op": "select", "dst": dst, "srcs": list(srcs)}
 def fail(e="InvalidArgument:Division by zero"): return {"op": "fail", "e": e}
 def ret(val): return {"op": "ret", "val": val}
 def let(dst, val): return {"op": "let", "dst": dst, "val": val}
+def selfpid(dst): return {"op": "selfpid", "dst": dst}                 # &.
+def fld(reg, i): return {"e": "f", "r": reg, "i": i}                   # field i (0-based) of the tuple in a register
 def mint(dst): return {"op": "mint", "dst": dst}                       # %ref
 def ropen(dst): return {"op": "open", "dst": dst}                      # __file_open__ on the simulated backend
 def ruse(dst, reg): return {"op": "use", "dst": dst, "reg": reg}       # __file_read__ of one byte
@@ -38,7 +40,8 @@ def scenario(name, scripts, nw=2, maxtick=0, maxfuel=3, placement="mod", defects
 # ---------------------------------------------------------------------------
 # Rendering to Quiver source
 # ---------------------------------------------------------------------------
-TYNAMES = {"int": "'int", "bin": "'bin", "tup": "['int, 'int]", "btup": "['bin, 'bin]", "res": "\\File", "ref": "'ref"}
+# "req" = a request carrying the pid to reply to: [(@'int), 'int]
+TYNAMES = {"req": "[(@'int), 'int]", "int": "'int", "bin": "'bin", "tup": "['int, 'int]", "btup": "['bin, 'bin]", "res": "\\File", "ref": "'ref"}
 
 def q_val(v):
     k = v["k"]
@@ -53,6 +56,7 @@ def q_expr(e, sid):
     if e["e"] == "c": return q_val(e["v"])
     if e["e"] == "r": return "&s%dr%d" % (sid, e["r"])
     if e["e"] == "t": return "[" + ", ".join(q_expr(f, sid) for f in e["fs"]) + "]"
+    if e["e"] == "f": return "&s%dr%d.%d" % (sid, e["r"], e["i"])
     if e["e"] == "hb":
         h = max(1, len(e["b"]) // 2)
         return "[0x%s, 0x%s] __binary_concat__" % ("".join("%02x" % b for b in e["b"][:h]),
@@ -73,6 +77,7 @@ class Renderer:
         if s["body"] == "spawn": return "#%s { @#{ 1 }, Ok }" % ty
         if s["body"] == "send": return "#%s { 0 s%dr1, Ok }" % (ty, sid)
         if s["body"] == "fail": return "#%s { [1, 0] __integer_divide__, Ok }" % ty
+        if s["body"] == "builtin": return "&__integer_add__"
         branches = " ".join("| =%s => Ok" % q_val(v) for v in s["acc"]) or "| []"
         return "#%s { %s }" % (ty, branches)
 
@@ -96,6 +101,8 @@ class Renderer:
                 steps.append("s%dr%d = ! [%s]" % (sid, op["dst"], ", ".join(self.src(s, sid) for s in op["srcs"])))
             elif o == "fail":
                 steps.append("[1, 0] __integer_divide__")
+            elif o == "selfpid":
+                steps.append("s%dr%d = &." % (sid, op["dst"]))
             elif o == "mint":
                 steps.append("s%dr%d = %%ref" % (sid, op["dst"]))
             elif o == "open":
